@@ -15,6 +15,8 @@ CONSTANTS
   RADS = {8}
   GMS = {64,128}
   TableEnds = "nearest"
+  ElemType = "float64"
+  WorkArrays = "float"
   Slicing = "layer"
   Export = FALSE
 INVARIANT LevelsStrictlyDecreasing
@@ -24,6 +26,7 @@ INVARIANT AltitudeStrictlyIncreasing
 INVARIANT GravityFallsOff
 INVARIANT StepRelation
 INVARIANT StepRelationAnyUnit
+INVARIANT StructureIndependentOfElementType
 INVARIANT MixAlignedWithLayers
 INVARIANT EvaluationKeepsStructure
 INVARIANT DensityIdealGas
